@@ -392,6 +392,30 @@ func zzC13DevValue(kind string, old any) (v any, del bool) {
 		b, _ := old.(bool)
 
 		return !b, false
+	case "neg":
+		return -1, false
+	case "future":
+		return zzC13Last + 1, false
+	case "p65535":
+		return 65535, false
+	case "p65536":
+		return 65536, false
+	case "huge":
+		return int64(9223372036854775807), false
+	case "estr":
+		return "", false
+	case "v6":
+		return "::1", false
+	case "hostport":
+		return "127.0.0.1:80", false
+	case "long":
+		return "0123456789012345678901234567890123456789012345678901234567890123456789_123456789", false
+	case "badelem":
+		return []any{1.5, nil}, false
+	case "oddstrs":
+		return []any{"", "#c", "[/x/", "[/x/]quic://8.8.8.8", "quic://[::1", "quic://a:b:c", "://", "quic://"}, false
+	case "dotlist":
+		return []any{".", "a", 1.5}, false
 	default:
 		panic("unknown deviation kind " + kind)
 	}
@@ -405,20 +429,11 @@ func zzC13Conc(v int, devs []zzC13Dev) (doc yobj, body []byte, ok bool, err erro
 		return nil, nil, false, err
 	}
 
+	if len(devs) == 1 && devs[0].K == "@doc" {
+		return zzC13ConcDoc(v, devs[0].D)
+	}
+
 	for _, d := range devs {
-		if d.K == "schema_version" {
-			switch d.D {
-			case "future":
-				doc[d.K] = zzC13Last + 1
-
-				continue
-			case "neg":
-				doc[d.K] = -1
-
-				continue
-			}
-		}
-
 		old, _ := zzC13Get(doc, d.K)
 		val, del := zzC13DevValue(d.D, old)
 		if !zzC13Set(doc, d.K, val, del) {
@@ -438,6 +453,38 @@ func zzC13Conc(v int, devs []zzC13Dev) (doc yobj, body []byte, ok bool, err erro
 	}
 
 	return doc, body, true, nil
+}
+
+// zzC13ConcDoc renders the document-level shapes: files that hold no mapping
+// and the mapping that holds nothing but the stamp.
+func zzC13ConcDoc(v int, class string) (doc yobj, body []byte, ok bool, err error) {
+	switch class {
+	case "empty":
+		body = []byte("")
+	case "comment":
+		body = []byte("# only a comment\n")
+	case "null":
+		body = []byte("null\n")
+	case "tilde":
+		body = []byte("---\n~\n")
+	case "scalar":
+		body = []byte("42\n")
+	case "strdoc":
+		body = []byte("just a string\n")
+	case "list":
+		body = []byte("- a\n- b\n")
+	case "stamp":
+		body = []byte("schema_version: " + strconv.Itoa(v) + "\n")
+	default:
+		return nil, nil, false, nil
+	}
+
+	doc = yobj{}
+	if class == "stamp" {
+		err = yaml.Unmarshal(body, &doc)
+	}
+
+	return doc, body, true, err
 }
 
 // ------------------------------------------------------------------- run
@@ -526,6 +573,9 @@ func zzC13Equal(a, b any) (ok bool) { return reflect.DeepEqual(zzC13Norm(a), zzC
 
 type zzC13Hash struct{ pass string }
 
+// zzC13Any stands for a value the spec leaves open ("any:").
+type zzC13Any struct{}
+
 // zzC13Eval evaluates a symbolic value against the input document.
 func zzC13Eval(val string, in yobj) (v any, err error) {
 	tag, rest, _ := strings.Cut(val, ":")
@@ -546,6 +596,8 @@ func zzC13Eval(val string, in yobj) (v any, err error) {
 	}
 
 	switch tag {
+	case "any":
+		return zzC13Any{}, nil
 	case "src":
 		var ok bool
 		v, ok = zzC13Get(in, rest)
@@ -693,6 +745,8 @@ func zzC13Eval(val string, in yobj) (v any, err error) {
 // contain zzC13Hash placeholders.
 func zzC13Like(exp, act any) (ok bool) {
 	switch e := exp.(type) {
+	case zzC13Any:
+		return true
 	case zzC13Hash:
 		s, isStr := act.(string)
 		if !isStr {
@@ -970,7 +1024,7 @@ func zzC13Check(vec *zzC13Vec, base map[string]zzC13TV) (out zzC13Out) {
 		first := ""
 		for i, diffShape := range vec.Oks {
 			shape := diffShape
-			if vec.Kind != "base" {
+			if vec.Kind == "vec" {
 				shape = make(map[string]zzC13TV, len(base)+len(diffShape))
 				for k, c := range base {
 					shape[k] = c
@@ -1123,7 +1177,8 @@ func TestZZVerifC13Trace(t *testing.T) {
 		n = 300
 	}
 
-	kinds := []string{"absent", "null", "float", "str", "empty", "emptylist", "zero", "seven", "true", "false"}
+	kinds := []string{"absent", "null", "float", "str", "empty", "emptylist", "zero", "seven", "true", "false",
+		"neg", "p65535", "p65536", "huge", "estr", "v6", "hostport", "long", "badelem", "oddstrs", "dotlist"}
 	for i := 0; i < n; i++ {
 		v := rng.Intn(zzC13Last + 1)
 		doc, err := zzC13Golden(v)
@@ -1151,6 +1206,7 @@ func TestZZVerifC13Trace(t *testing.T) {
 			if strings.HasSuffix(c.K, "zz_extra") {
 				d.D = "str"
 			}
+
 			devs = append(devs, d)
 		}
 
